@@ -229,7 +229,12 @@ def run(ctx):
 
 
 def _translator_part(ctx, rng, cfgs, fxs, bodies):
-    for body in bodies:
+    # the same payloads with the member name written with JSON escapes (the same JSON value as the literal spelling)
+    bodies = list(bodies)
+    escaped = [b.replace('"__jsonclass__"', sp) for b in bodies
+               for sp in ('"\\u005f_jsonclass__"', '"__jsonclass\\u005f\\u005F"') if '"__jsonclass__"' in b]
+    ctx.count("translator-bodies-with-escaped-member-names", len(escaped))
+    for body in bodies + escaped:
         for cfg in cfgs:
             fx = fxs[cfg]
             obs = dm.drive(fx, body)
